@@ -787,7 +787,14 @@ func (g *Gen) evalCall(env *Env, x *ECall) Val {
 				if g.mode != ModeInt {
 					panic(evalErr("len(map) in bv mode"))
 				}
-				return Val{T: it, S: fmt.Sprintf("(ite (= %s 0) 0 (%s (select %s %s)))", v.S, g.mapCard(vt), g.heapGet(env.st, dom), v.S)}
+				domT := fmt.Sprintf("(select %s %s)", g.heapGet(env.st, dom), v.S)
+				if g.inQuant == 0 {
+					// a map without an entry (for any key of its key type) has size 0: the fact that lets "nothing is
+					// left" conclude "len == 0" (the converse is stated where the program takes len(m))
+					ks := g.sortOf(vt.Key())
+					g.assume(fmt.Sprintf("(=> (forall ((k %s)) (=> %s (not (select %s k)))) (= (%s %s) 0))", ks, g.rangeOf(vt.Key(), "k", env.st), domT, g.mapCard(vt), domT))
+				}
+				return Val{T: it, S: fmt.Sprintf("(ite (= %s 0) 0 (%s %s))", v.S, g.mapCard(vt), domT)}
 			case *types.Array:
 				return Val{T: it, C: big.NewInt(vt.Len()), S: g.idxLit(vt.Len())}
 			}
